@@ -84,6 +84,12 @@ def run(ck):
         names = [rng.choice(allnames + msggen.NAMES) for _ in range(rng.choice([1, 1, 2, 3]))]
         names = [rng.choice([n, n.lower(), n.upper()]) for n in names]
         names = [n if not n.startswith(b'~') else b'T' + n for n in names]     # a leading ~ is tilde-expanded in configuration strings
+        if round_ % 2 == 1:
+            # the names of a list are looked up independently of each other: related names side by side (an extension or a
+            # prefix of a name listed before it, the same name again in another case) neither hide nor stand in for one another
+            n = rng.choice(names)
+            names = rng.choice([[n + b'-Ext', n], [n + b'x', n.lower(), n[:-1]], [n.upper(), n, n + b'-Ext'], [n + n, n]]) + \
+                (names if rng.randrange(2) else [])
         pat = rng.choice(PATTERNS)
         if rng.randrange(2) == 0 and b'\\' not in pat and b'[' not in pat:
             pat = pat.upper() if rng.randrange(2) else pat.title()      # the i flag then decides
@@ -147,7 +153,7 @@ def run(ck):
         'evaluations': stats['evals'],
         'distinct_nontrivial': len(stats['nontrivial']),
         'rule': 'get_header for 2-6 names (present in other case, absent, prefix-extended) on msggen well-formed messages; binary: a rule '
-                '"header {1-3 names} /ERE/[i] move" from a 24-pattern family over 30 messages per round, match decided by the platform regexec '
+                '"header {1-6 names, among them extensions / prefixes / repetitions of one another} /ERE/[i] move" from a 24-pattern family over 30 messages per round, match decided by the platform regexec '
                 'on the decoded values; in two rounds of three an earlier rule / an earlier or-ed condition carries the same pattern text with the opposite i flag on a field no message has; non-trivial = the queried name has at least one occurrence; distinct = distinct (message, name)',
         'samples': samples,
         'traces_validated_against_impl': stats['evals'],
